@@ -23,6 +23,21 @@ CHECKS = {
     ),
 }
 
+CHECKS["C19"] = (
+    "E-CH",
+    "CrossHair/z3 symbolic execution of the real Path.__init__ against a symbolic file system (kinds and permission bits are z3 variables), exhaustive per mode",
+    "Bounded symbolic model checking of the real code. jsonargparse._util.os is replaced by a delegating fake whose access/stat/isdir/"
+    "isfile answer from z3 variables (kind and r/w/x of the path, its parent, grand-parent and the cwd); for every valid mode string "
+    "with <= 2 flags (quick) / <= 4 flags (thorough) and six spellings CrossHair exhausts the path tree of Path.__init__ and each path "
+    "is compared with the class docstring read as a predicate: accept iff the mode is satisfied, every rejection is PathError, "
+    "relative/absolute bookkeeping. change_to_path_dir is run nested to depth 2/3 with solver-chosen path kinds and a raising body; "
+    "nested config files with relative Path_fr arguments are parsed from five working directories on a real directory tree.",
+    "Trusted: the file-system model (chain of four nodes, no symlinks, searchable ancestors), the docstring reading used as oracle, "
+    "CrossHair/z3. Outside: URL/fsspec modes (u, s), an existing FIFO under a mode with f and c, symlinks, real permission bits (the "
+    "sandbox runs as root, so permission-dependent counterexamples are replayed against the fake os only).",
+    "DESIGN.md §4 C19",
+)
+
 NOT_APPLICABLE = {
     "C13": "the resolver's only input is source code on disk (inspect.getsource/ast.parse/import); a symbolic program cannot be "
     "represented for that code and types/defaults are part of the program, so no dimension of the quantifier can be a solver variable",
